@@ -16,7 +16,7 @@ ASSUMPTIONS = ['floats are short decimals identified with their repr', 'attribut
 
 ESC = '\U0001D1C0'
 ALPHA = ["'", '"', '[', ']', '.', '\\', ' ', '\n', '\t', 'é', 'a', '_', '0', '1']
-WORDS = ['root', '__', '__x', 'a', 'ab', "it's", 'say "x"', 'x y', 'a.b', 'a[0]', "a']['b", 'C:\\tmp', '\\', '', 'é', '0', '1.5', 'None', 'True',
+WORDS = ['100%', 'a%%b', '%d', '%s%s', '%', 'root', '__', '__x', 'a', 'ab', "it's", 'say "x"', 'x y', 'a.b', 'a[0]', "a']['b", 'C:\\tmp', '\\', '', 'é', '0', '1.5', 'None', 'True',
          "'", '"', ']', '[', 'a]', '[a', "'a'", '"a"', 'root[1]', 'a\nb', 'tab\there', '\\"', "'\n", "x\\'", ' ', '  lead', 'trail ', '𝄞']
 NONSTR = [0, 1, 2, 10, -1, 255, 1.5, 0.1, 2.25, -3.5, 100.0, 1.0, 0.0, None, True, False]
 
@@ -203,6 +203,56 @@ def bytes_keys(ctx):
             ctx.violate(case, 'DeepSearch reports %r for the location DeepDiff reports as %r' % (o['search_paths'], o['path']))
 
 
+def shifted_lists(ctx):
+    """the t2-side location of an entry (new_path at verbose_level=2, path(use_t2=True) in the tree view, the path of an added item) leads to
+    that object in t2, also where an insertion or deletion in front of a replaced chunk makes the t1 and t2 indexes differ; the string and the
+    list form of each path agree"""
+    from deepdiff import DeepDiff, extract, parse_path
+    fixed = [([0, 1, 2, 3], [1, 2, 9, 8]), (['a', 'b', 'c'], ['x', 'a', 'b', 'q', 'r']), ([1, 2, 3, 4, 5, 6], [0, 1, 2, 9, 4, 5, 6, 7]), (('p', 'q', 'r', 's'), ('q', 'Z', 's', 't')),
+             ({'k': [10, 20, 30, 40]}, {'k': [20, 30, 41, 42]}), ([5, 6, 7, 8, 9], [6, 7, 'x', 'y', 'z', 9, 10]), ({"it's": ['a', 'b', 'c', 'd']}, {"it's": ['b', 'X', 'Y', 'd', 'e']})]
+    for _ in range(40 if ctx.thorough() else 8):
+        base = ctx.rng.sample(range(100), ctx.rng.randint(4, 8))
+        new = list(base)
+        del new[ctx.rng.randrange(2)]
+        i = ctx.rng.randrange(1, len(new)); new[i:i + 1] = [ctx.rng.randint(200, 300) for _ in range(ctx.rng.randint(1, 3))]
+        fixed.append((base, new))
+    for t1, t2 in fixed:
+        ctx.evaluations += 1
+        case = {'keys': ['shifted list'], 't1': repr(t1), 't2': repr(t2)}
+        ctx.nontriv(('shifted', repr(t1), repr(t2)))
+        tree = DeepDiff(t1, t2, view='tree')
+        text = DeepDiff(t1, t2, verbose_level=2)
+        for cat, levels in tree.items():
+            for lv in levels:
+                p2 = lv.path(use_t2=True)
+                l2 = lv.path(use_t2=True, output_format='list')
+                if p2 is None:
+                    continue
+                if parse_path(p2) != l2:
+                    ctx.violate(case, '%s: the t2-side path %r parses to %r, its list form is %r' % (cat, p2, parse_path(p2), l2))
+                if cat in ('values_changed', 'type_changes', 'iterable_item_added'):
+                    try:
+                        got = extract(t2, p2)
+                    except Exception as e:
+                        ctx.violate(case, '%s: extract(t2, %r) raised %s' % (cat, p2, type(e).__name__)); continue
+                    if not (got is lv.t2 or (got == lv.t2 and type(got) is type(lv.t2))):
+                        ctx.violate(case, '%s: the t2-side path %r leads to %r, the entry is about %r' % (cat, p2, got, lv.t2))
+        for path, d in text.get('values_changed', {}).items():
+            p2 = d.get('new_path', path)
+            try:
+                if extract(t2, p2) != d['new_value'] or extract(t1, path) != d['old_value']:
+                    ctx.violate(case, 'values_changed %s -> %s: the paths lead to %r / %r, the entry says %r / %r' % (path, p2, extract(t1, path), extract(t2, p2), d['old_value'], d['new_value']))
+            except Exception as e:
+                ctx.violate(case, 'values_changed %s -> %s: extract raised %s' % (path, p2, type(e).__name__))
+        for path, v in text.get('iterable_item_added', {}).items():
+            try:
+                if extract(t2, path) != v:
+                    ctx.violate(case, 'iterable_item_added %s: t2 holds %r there, the entry says %r' % (path, extract(t2, path), v))
+            except Exception as e:
+                ctx.violate(case, 'iterable_item_added %s: extract raised %s' % (path, type(e).__name__))
+        ctx.count('shifted_lists')
+
+
 def gen_sequences(ctx):
     seqs = []
     L = 3 if ctx.thorough() else 2
@@ -374,6 +424,7 @@ def run(ctx, impl_only=False):
                     ctx.diverge(case, enc_str(o['stringified']), a, op='PSTRINGIFY')
         check_le(ctx)
     bytes_keys(ctx)
+    shifted_lists(ctx)
     # ---- known findings (boundary witnesses outside SafeKey)
     kf = known(ctx)
     wit = {
